@@ -999,7 +999,6 @@ func ruleJSONTags() *Rule {
 	}
 }
 
-
 // tbZeroLengthAccepted: proto.Marshal of a message whose fields are all zero is empty, and the encoders write that
 // record as a bare length 0 (term 0 with no vote; the log's first placeholder). A decoder that tests the length it has
 // read and fails for 0 cannot read back what its encoder wrote.
